@@ -151,8 +151,9 @@ def apply_edits(r, st, nops, counter, hostile=False, prefer_boundaries=True):
         for ln in (b.s1 - 1, b.s2 + 1, b.e1 - 1, b.e2 + 1, 1, n):
             boundaries.add(ln)
     lang = st.lang
+    modified = {}
     for _ in range(nops):
-        kind = r.choice(["insert", "insert", "delete", "delete", "replace", "replace", "multi-delete", "multi-insert", "unequal-replace"])
+        kind = r.choice(["insert", "insert", "delete", "delete", "replace", "replace", "multi-delete", "multi-insert", "unequal-replace", "trailing-blanks"])
         if prefer_boundaries and r.random() < 0.5 and boundaries:
             target = r.choice(sorted(boundaries))
         else:
@@ -165,6 +166,13 @@ def apply_edits(r, st, nops, counter, hostile=False, prefer_boundaries=True):
                 return hostile_line(r, lang, counter[0])
             return new_line_text(r, lang, counter[0]).encode("utf-8")
 
+        if kind == "trailing-blanks":
+            # the line keeps its text and only gains (or loses) blanks at its end: still an edit of that line
+            if idx in free_set(free) and keep[idx] and idx not in modified:
+                t = st.lines[idx]
+                modified[idx] = t.rstrip(b" ") if t.endswith(b" ") else t + b"  "
+                ops.append((kind, idx + 1, 1))
+            continue
         if kind in ("insert", "multi-insert"):
             pos = r.choice([idx, idx + 1]) if n else 0
             k = 1 if kind == "insert" else r.randint(2, 4)
@@ -192,7 +200,6 @@ def apply_edits(r, st, nops, counter, hostile=False, prefer_boundaries=True):
             ops.append((kind, cand[0] + 1, (len(cand), k_new)))
     # an in-line edit of one block's end-tag line (words appended inside the comment, after the tag): the line keeps its identity;
     # a change of the end-tag line alone says nothing about the block, together with a content change the block is modified as usual
-    modified = {}
     if st.blocks and r.random() < 0.3:
         b = r.choice(st.blocks)
         i = b.e1 - 1
